@@ -196,7 +196,7 @@ Definition opt_eqb {A} (eqb : A -> A -> bool) (a b : option A) : bool :=
 Definition errent_eqb (a b : errent) : bool :=
   String.eqb (er_type a) (er_type b) && String.eqb (er_message a) (er_message b)
   && opt_eqb String.eqb (er_task a) (er_task b) && opt_eqb Nat.eqb (er_route a) (er_route b)
-  && opt_eqb trid_eqb (er_trans a) (er_trans b) && opt_eqb json_eqb (er_result a) (er_result b).
+  && opt_eqb trid_eqb (er_trans a) (er_trans b) && opt_eqb py_eqb (er_result a) (er_result b).   (* log_entry drops duplicates by Python == *)
 
 Record cstate := {
   c_spec : wf_spec; c_graph : graph; c_inputs : dict; c_parent : dict;
